@@ -75,6 +75,25 @@ BODY = [
 
 
 def gen_files(rng, dotted=False):
+    """A dict relative path -> source text, with a random import graph (see _gen_files), now and then with a collected file
+    whose path is only a CASE VARIANT of a module some program imports and the collection does not hold (`Queue.py` next to
+    `import queue`, `pkg/Util.py` next to `import pkg.util`): internality is decided on the exact path (seed C03-m: paths
+    compared case-folded)."""
+    files = _gen_files(rng, dotted)
+    if files and rng.random() < 0.3:
+        m = rng.choice(["queue", "os", "utils", "mymod", "pkg.helper", "json"])
+        parts = m.split(".")
+        variant = rng.choice([parts[-1].capitalize(), parts[-1].upper(), parts[-1][:-1] + parts[-1][-1].upper()])
+        path = "/".join(parts[:-1] + [variant]) + ".py"
+        exact = "/".join(parts) + ".py"
+        if path not in files and exact not in files:
+            importer = rng.choice(sorted(files))
+            files[importer] = rng.choice([f"import {m}\n", f"from {m} import thing\n"]) + files[importer]
+            files[path] = rng.choice(BODY) + "\n"
+    return files
+
+
+def _gen_files(rng, dotted=False):
     """A dict relative path -> source text, with a random import graph."""
     n = rng.choice([1, 2, 2, 3, 3, 4, 5, 6])
     layout = rng.choice(["flat", "flat", "nested", "nested", "deep"])
